@@ -69,6 +69,9 @@ def judge(case, out, expects, sib):
         TP.check_direction(res, ex, "error.sibling")
     if out.sched.escalations:
         raise Violation("error.escalation", f"{out.sched.escalations}")
+    late = inproc.late_wakeups(out.sched)
+    if late:
+        raise Violation("error.lost-wakeup", f"a blocked call was never woken, it only returned by its 60 s timeout: {late}")
 
 
 def labels_of(case):
